@@ -9,12 +9,16 @@ open TrDsl MG IdAux
 
 /-- the invariant does not mention the outcomes / interventions of the query -/
 theorem SemInv.congr {ctx : Ctx} {q s : Query} {G : MG Name} (h : SemInv ctx q G) (he : s.expr = q.expr)
-    (hd : s.domain = q.domain) : SemInv ctx s G := by
-  refine ⟨h.rsub, he ▸ h.good, he ▸ h.nd, he ▸ h.est, h.usum, h.ign, ?_⟩
-  rcases h.shape with ⟨pop, c, hexpr, jc⟩ | ⟨hnj, hwf⟩
-  · exact Or.inl ⟨pop, c, he.trans hexpr,
-      ⟨hd ▸ jc.okW, fun v hv => hd ▸ jc.okN v hv, jc.cover, jc.within, jc.plain, fun S hS σ => hd ▸ jc.marg S hS σ⟩⟩
-  · exact Or.inr ⟨fun pop c => he ▸ hnj pop c, he ▸ hwf⟩
+    (hd : s.domain = q.domain) (hg : s.graphs = q.graphs) (ha : s.active = q.active) (hs : s.surr = q.surr) :
+    SemInv ctx s G := by
+  refine ⟨h.rsub, he ▸ h.good, he ▸ h.nd, he ▸ h.est, h.usum, h.ign, ?_, ?_⟩
+  · rcases h.shape with ⟨pop, c, hexpr, jc⟩ | ⟨hnj, hwf⟩
+    · exact Or.inl ⟨pop, c, he.trans hexpr,
+        ⟨hd ▸ jc.okW, fun v hv => hd ▸ jc.okN v hv, jc.cover, jc.within, jc.plain, fun S hS σ => hd ▸ jc.marg S hS σ⟩⟩
+    · exact Or.inr ⟨fun pop c => he ▸ hnj pop c, he ▸ hwf⟩
+  · intro ha' hs'
+    obtain ⟨t1, t2, t3, t4⟩ := h.t0 (ha ▸ ha') (hs ▸ hs')
+    exact ⟨hg ▸ t1, t2, he ▸ t3, hg ▸ t4⟩
 
 /-! ### line 3 -/
 
@@ -24,7 +28,7 @@ theorem sound_line3 {ctx : Ctx} {Mb : Nat} {q : Query} {G : MG Name} {extra : Li
     (h : SemInv ctx q G) (hex : noEffectOnOutcomes G q.X q.Y = .ok extra) :
     SemInv ctx (line3 q extra) G ∧
       ∀ σ, Spec ctx.M (regularNodes G) (line3 q extra).X (line3 q extra).Y σ = Spec ctx.M (regularNodes G) q.X q.Y σ := by
-  refine ⟨h.congr rfl rfl, fun σ => ?_⟩
+  refine ⟨h.congr rfl rfl rfl rfl rfl, fun σ => ?_⟩
   unfold noEffectOnOutcomes at hex
   obtain ⟨a, ha, hex⟩ := bind_ok hex
   simp only [pure, Except.pure, Except.ok.injEq] at hex
